@@ -436,10 +436,12 @@ def run(ctx):
             for seq in pairs:
                 add(nq, nb, seq)
         else:
-            for a in far:
-                for b in [c for c in cmds if c[0] == "Measure"][:(2 if ctx.quick else 4)]:
-                    if a[0] in ("CX", "CRz"):
-                        add(nq, nb, (a, b))
+            for a in far:     # a gate across >= 2 wires, made visible by a superposition / flip
+                if a[0] in ("CX", "CRz", "CZ", "SWAP"):
+                    for q in a[1]:
+                        add(nq, nb, (("H", [q], []), a))
+                    add(nq, nb, (("X", [a[1][0]], []), a, ("Measure", [a[1][1], 0], [])))
+                    add(nq, nb, (("H", [a[1][0]], []), a, ("H", [a[1][1]], []), ("Measure", [a[1][1], 0], [])))
         if not ctx.quick and nq <= 2:
             for seq in itertools.product(cmds, repeat=3):
                 if hash_mod(seq, 5) == 0:
